@@ -52,8 +52,8 @@ def cases(tier):
     dims = (1, 2) if tier == "quick" else (1, 2, 3)
     C = []
 
-    def add(name, fn, shapes, spec=None, exc=None, real_ops=(), tag=None):
-        C.append({"name": name, "fn": fn, "shapes": shapes, "spec": spec, "exc": exc, "real_ops": real_ops,
+    def add(name, fn, shapes, spec=None, exc=None, real_ops=(), tag=None, zero_imag=()):
+        C.append({"name": name, "fn": fn, "shapes": shapes, "spec": spec, "exc": exc, "real_ops": real_ops, "zero_imag": zero_imag,
                   "id": "%s%s%s" % (name, "".join("(%s)" % ",".join(map(str, s)) for s in shapes), ("/" + tag) if tag else "")})
 
     ranks = 3 if tier == "quick" else 4
@@ -75,6 +75,10 @@ def cases(tier):
         add("sigmoid", lambda x, y: cplx.sigmoid(x, y), [s, s], ("sigmoid", None), real_ops=(0, 1))
         add("scalar_divide(x,scalar)", lambda x, y: cplx.scalar_divide(x, y), [s, ()], ("mul-back", lambda r, x, y: (r * y, x)))
         add("inverse", lambda x: cplx.inverse(x), [s], ("mul-back", lambda r, x: (r * x, x * 0 + 1)))
+        add("inverse(exactly real operand)", lambda x: cplx.inverse(x), [s], ("mul-back", lambda r, x: (r * x, x * 0 + 1)), zero_imag=(0,))
+        add("scalar_divide(x, exactly real scalar)", lambda x, y: cplx.scalar_divide(x, y), [s, ()], ("mul-back", lambda r, x, y: (r * y, x)), zero_imag=(1,))
+        add("conj(exactly real operand)", lambda x: cplx.conj(x), [s], lambda x: np.conj(x), zero_imag=(0,))
+        add("elementwise_division(x, exactly real y)", lambda x, y: cplx.elementwise_division(x, y), [s, s], ("mul-back", lambda r, x, y: (r * y, x)), zero_imag=(1,))
         if len(s) >= 1:
             add("elementwise_division(shape mismatch)", lambda x, y: cplx.elementwise_division(x, y), [s, s + (2,)], exc=ValueError)
     for s in _shapes(dims, ranks):
@@ -166,7 +170,10 @@ def _operands(case, mk):
         if i in case["real_ops"]:
             ops.append(mk(nm, tuple(s), True))
         else:
-            ops.append(mk(nm, (2,) + tuple(s), False))
+            t = mk(nm, (2,) + tuple(s), False)
+            if i in case.get("zero_imag", ()) and isinstance(t, st.SymTensor):
+                t._arr[1, ...] = alg.ZERO           # an operand that is exactly real (imaginary part identically 0)
+            ops.append(t)
     return ops
 
 
@@ -188,6 +195,10 @@ def run_config(ctx, cfg):
                 ctx.holds("%s/raises" % nm, True)
             continue
         res = case["fn"](*ops)
+        if "out is" not in case["name"]:
+            ctx.holds("%s/operands are not modified" % nm, all(o._stor.version == 0 for o in ops))
+            if isinstance(res, st.SymTensor) and "real" != case["name"] and "imag" != case["name"]:
+                ctx.holds("%s/result does not alias an operand" % nm, all(res._stor is not o._stor for o in ops) or case["name"] in ("real", "imag"))
         spec = case["spec"]
         if isinstance(spec, tuple):
             kind, f = spec
